@@ -293,6 +293,7 @@ def _run_enum(mod, sub, res, findings, shard, nshards, tier):
             f = match_open_finding(mod, findings, sub.name, case, v)
             if f:
                 res.excluded[f['key']] += 1
+                res.evaluations += 1
                 continue
             res.violation = (v.clause, v.detail, case)
             return
@@ -327,6 +328,7 @@ def _run_hyp(mod, sub, res, findings, seedval, n, tier, t0, budget_s):
             f = match_open_finding(mod, findings, sub.name, case, v)
             if f:
                 res.excluded[f['key']] += 1
+                res.evaluations += 1
                 return
             if state['fail_t'] is None:
                 state['fail_t'] = time.time()
